@@ -798,7 +798,10 @@ class PEval:
             items = self.iterate(self.ev(e.args[0], env))
             out, acc = [], 0
             for it in items:
-                acc = mk_sum(acc, it.term if isinstance(it, Sym) else it)
+                if isinstance(acc, (int, float)) and isinstance(it, (int, float)) and not isinstance(it, bool):
+                    acc = acc + it  # plain numbers: a leading 0 stays the number 0
+                else:
+                    acc = mk_sum(acc, it.term if isinstance(it, Sym) else it)
                 out.append(acc if isinstance(acc, (int, float)) else Sym(acc))
             return out
         if fn_text in ("np.insert", "numpy.insert"):
